@@ -270,6 +270,42 @@ func check(c Case, o *stats.Obs) error {
 			}
 		}
 	}
+	// Retention: a decoded message must not change when another message is decoded afterwards.
+	{
+		frame := m.Frame()
+		var first *Flat
+		var keep4 *msm4.Message
+		var keep7 *msm7.Message
+		if m.IsMSM7() {
+			keep7, _ = msm7.GetMessage(frame, lv)
+		} else {
+			keep4, _ = msm4.GetMessage(frame, lv)
+		}
+		other := enc.MSM{Type: m.Type, StationID: 77, Timestamp: 5000, SatMask: 0xA000000000000005, SigMask: 0x80000003,
+			CellMask: []bool{true, false, true, true, true, false, false, true, true, true, false, true},
+			Sats:     make([]enc.SatCell, 4), Sigs: make([]enc.SigCell, 8)}
+		for i := range other.Sigs {
+			other.Sigs[i] = enc.SigCell{RangeDelta: int64(i + 1), PhaseDelta: -int64(i + 1), Lock: 1, CNR: 7}
+		}
+		of := other.Frame()
+		if m.IsMSM7() {
+			msm7.GetMessage(of, lv)
+			if keep7 != nil {
+				first = flat7(keep7)
+			}
+		} else {
+			msm4.GetMessage(of, lv)
+			if keep4 != nil {
+				first = flat4(keep4)
+			}
+		}
+		if first != nil {
+			if d := diff(first, w); d != "" {
+				o.Key = "result-changed-by-later-decode"
+				return fmt.Errorf("a decoded type %d message (shape %s) changed after another message was decoded: %s\nframe %x", m.Type, c.Shape, d, frame)
+			}
+		}
+	}
 	// non-trivial rule
 	lastZero := nCells > 0 && m.Sigs[nCells-1] == (enc.SigCell{})
 	diffCounts := false
